@@ -11,6 +11,7 @@ import (
 	"github.com/bytedance/gopkg/lang/mcache"
 	"github.com/cloudwego/gopkg/bufiox"
 	"github.com/cloudwego/gopkg/protocol/thrift"
+	"github.com/cloudwego/gopkg/protocol/thrift/base"
 	"github.com/cloudwego/gopkg/protocol/ttheader"
 	vatomic "github.com/cloudwego/gopkg/verifshim/vatomic"
 	vsync "github.com/cloudwego/gopkg/verifshim/vsync"
@@ -199,7 +200,11 @@ func c14BodyH(e *c14Env, stamp int, l *obsLog) {
 	r := bufiox.NewDefaultReader(e.reader(sink.Got, 1000))
 	d, err := ttheader.Decode(ctx, r)
 	l.add("H decode %v flags=%d seq=%d who %s int1 %s", err, d.Flags, d.SeqID, expect([]byte(d.StrInfo["who"]), stamped(stamp, 40, 1)), expect([]byte(d.IntInfo[1]), stamped(stamp, 4200, 2)))
+	r.Next(r.ReadLen() * 0) // header fully consumed
 	r.Release(nil)
+	e.s.Point("yield")
+	// the decoded parameters outlive the reader's buffer
+	l.add("H after-release who %s int1 %s", expect([]byte(d.StrInfo["who"]), stamped(stamp, 40, 1)), expect([]byte(d.IntInfo[1]), stamped(stamp, 4200, 2)))
 }
 
 func c14BodyB(e *c14Env, stamp int, l *obsLog) {
@@ -282,17 +287,64 @@ func c14BodyS3big(e *c14Env, stamp int, l *obsLog) {
 	}
 }
 
+// BW: a bytes writer over a caller-owned scratch buffer of power-of-two capacity that the message outgrows;
+// afterwards the caller reuses its scratch buffer.
+func c14BodyBW(e *c14Env, stamp int, l *obsLog) {
+	scratch := make([]byte, 0, 4096)
+	for round := 0; round < 2; round++ {
+		target := scratch[:0]
+		w := bufiox.NewBytesWriter(&target)
+		msg := stamped(stamp, 5000, round)
+		m, _ := w.Malloc(8)
+		copy(m, msg[:8])
+		w.WriteBinary(msg[8:])
+		err := w.Flush()
+		l.add("BW%d flush %v %s", round, err, expect(target, msg))
+		own := stamped(stamp, 4096, 40+round)
+		copy(scratch[:4096], own)
+		e.s.Point("yield")
+		l.add("BW%d caller-scratch-intact %s", round, expect(scratch[:4096], own))
+		l.add("BW%d target-intact %s", round, expect(target, msg))
+	}
+}
+
+// E: error paths share package-level sentinel errors; the text of an error must not depend on what happened before.
+func c14BodyE(e *c14Env, stamp int, l *obsLog) {
+	st := baseStruct(string(stamped(stamp, 10, 0)), "c", "a", nil)
+	enc := ref.Encode(nil, &st)
+	var texts []string
+	for round := 0; round < 3; round++ {
+		var b base.Base
+		_, err := b.FastRead(enc[:len(enc)-7])
+		e.s.Point("yield")
+		if err == nil {
+			l.add("E%d truncated input accepted ok=false", round)
+			continue
+		}
+		texts = append(texts, err.Error())
+		_, err2 := thrift.Binary.Skip(enc[:5], thrift.STRUCT)
+		l.add("E%d %d-byte error text; skip error %q", round, len(err.Error()), fmt.Sprint(err2))
+	}
+	same := true
+	for _, t := range texts {
+		if t != texts[0] {
+			same = false
+		}
+	}
+	l.add("E same-error-text-every-time ok=%v", same)
+}
+
 type c14Thread struct {
 	kind string
 	body func(e *c14Env, stamp int, l *obsLog)
 }
 
 var c14Bodies = map[string]func(e *c14Env, stamp int, l *obsLog){
-	"P": c14BodyP, "S1e": c14BodyS1e, "S3big": c14BodyS3big,
+	"P": c14BodyP, "S1e": c14BodyS1e, "S3big": c14BodyS3big, "BW": c14BodyBW, "E": c14BodyE,
 	"R": c14BodyR, "W": c14BodyW, "S1": c14BodyS1, "S2": c14BodyS2, "S3": c14BodyS3, "H": c14BodyH, "B": c14BodyB,
 }
 
-var c14Scenarios = [][]string{{"P", "P"}, {"P", "W"}, {"S1e", "S1"}, {"S1e", "S3"}, {"S3big", "S3big"}, {"S3big", "W"}, {"R", "R"}, {"W", "W"}, {"S1", "S1"}, {"S3", "S3"}, {"S2", "S2"}, {"R", "S1"}, {"W", "H"}, {"H", "H"}, {"B", "B", "B"}, {"R", "B"}, {"S3", "S3", "S3"}, {"R", "W", "S3"}, {"S1", "S3", "W"}}
+var c14Scenarios = [][]string{{"BW", "W"}, {"BW", "BW"}, {"E", "E"}, {"E", "R"}, {"H", "R"}, {"P", "P"}, {"P", "W"}, {"S1e", "S1"}, {"S1e", "S3"}, {"S3big", "S3big"}, {"S3big", "W"}, {"R", "R"}, {"W", "W"}, {"S1", "S1"}, {"S3", "S3"}, {"S2", "S2"}, {"R", "S1"}, {"W", "H"}, {"H", "H"}, {"B", "B", "B"}, {"R", "B"}, {"S3", "S3", "S3"}, {"R", "W", "S3"}, {"S1", "S3", "W"}}
 
 type c14Case struct {
 	Scenario []string `json:"scenario"`
@@ -393,6 +445,17 @@ func c14Check(c *mc.Ctx, r *c14Run, res mc.SchedResult) {
 		c.Violate("sched", "C14|"+strings.Join(k.Scenario, ",")+"|"+class, fmt.Sprintf("threads %v under schedule %v: ", k.Scenario, nonzero(res.Choices))+fmt.Sprintf(format, a...), k)
 	}
 	span := contains(k.Scenario, "B")
+	// collect the audits of THIS execution first: computing a solo log (cache miss) runs another execution and resets the shims
+	vsync.Each(func(x interface{}) {
+		if want, ok := r.snaps[x]; ok {
+			if got := thrift.VerifSnapshot(x); got != want {
+				r.auditBuf = append(r.auditBuf, fmt.Sprintf("pooled object written after it was returned to its pool: at Put %s, at end %s", want, got))
+			}
+		}
+	})
+	mcache.VerifAuditCoTenant()
+	poolAudit := mcache.VerifTakeAudit()
+	objAudit := append([]string{}, r.auditBuf...)
 	for i, kind := range k.Scenario {
 		if p := res.Panics[i]; p != nil {
 			bad("panic:"+kind+":"+p.Class, "thread %d (%s) panicked: %s at %s", i, kind, p.Msg, p.Frame)
@@ -417,21 +480,12 @@ func c14Check(c *mc.Ctx, r *c14Run, res mc.SchedResult) {
 			}
 		}
 	}
-	// objects still pooled at the end must be as they were Put
-	vsync.Each(func(x interface{}) {
-		if want, ok := r.snaps[x]; ok {
-			if got := thrift.VerifSnapshot(x); got != want {
-				r.auditBuf = append(r.auditBuf, fmt.Sprintf("pooled object written after it was returned to its pool: at Put %s, at end %s", want, got))
-			}
-		}
-	})
-	if len(r.auditBuf) > 0 {
-		bad("pool-object-audit", "%s", strings.Join(r.auditBuf, "; "))
+	if len(objAudit) > 0 {
+		bad("pool-object-audit", "%s", strings.Join(objAudit, "; "))
 		return
 	}
-	mcache.VerifAuditCoTenant()
-	if a := mcache.VerifTakeAudit(); len(a) > 0 {
-		bad("pool-audit:"+auditClass(a[0]), "buffer pool audit: %s", strings.Join(a, "; "))
+	if len(poolAudit) > 0 {
+		bad("pool-audit:"+auditClass(poolAudit[0]), "buffer pool audit: %s", strings.Join(poolAudit, "; "))
 	}
 }
 
